@@ -64,6 +64,4 @@ def run(ctx, model_ok):
 
 
 def replay(ctx, data):
-    if data.get("disagreements") or data.get("broken") or "what" in data:
-        return cc.replay_disagreements(ctx, data, "C02")
-    return V.replay_case(ctx, data, "C02")
+    return V.replay_case(ctx, data, "C02")     # failures, disagreements, broken obligations and pinned reproducers alike
